@@ -229,6 +229,9 @@ def r_candc(repo, rep, R='R15.1'):
                 k, v = e[1][2]
                 if k[0] == 'const' and k[1] in token_keys:
                     rewritten.append('%s=%s' % (k[1], show(v)[:50]))
+                elif k[0] == 'unpack' and k[2] == 0 and k[1][0] == 'elem' and not (v[0] == 'unpack' and v[2] == 1 and v[1] == k[1]):
+                    # for k, v in token.items(): node.set(k, f(v)) -- every field goes through f
+                    rewritten.append('%s=%s' % (show(k)[:30], show(v)[:50]))
     rep.check(not rewritten, R, w, 'candc:token-verbatim:write', 'token fields are written exactly as stored in the token', 'token fields are rewritten on output: %s' % sorted(set(rewritten)))
     transformed = []
     for c_ in token_calls:
@@ -365,6 +368,19 @@ def r_jigg(repo, rep, R='R15.2'):
         ok = ok and same_sentence
     rep.check(ok, R, w, 'jigg:same-indices', 'both templates are filled with the sentence index and the running leaf / token index',
               'terminal reference and token id are not filled from the same (sentence, position) pair')
+    # the fields of a token are written as stored: for k, v in token.items(): node.set(k, v)
+    rewritten, star = [], 0
+    for st_, o_ in SymExec(tj, unroll=1, no_inline=(proc.name,)).run():
+        for e_ in st_.events:
+            if e_[0] == 'call' and e_[1][1][0] == 'attr' and e_[1][1][2] == 'set' and len(e_[1][2]) == 2:
+                k, v = e_[1][2]
+                if k[0] == 'unpack' and k[2] == 0 and k[1][0] == 'elem':
+                    star += 1
+                    if not (v[0] == 'unpack' and v[2] == 1 and v[1] == k[1]):
+                        rewritten.append('%s=%s' % (show(k)[:30], show(v)[:50]))
+    if star:
+        rep.check(not rewritten, R, '%s:%s to_jigg_xml' % (JX, tj.lineno), 'jigg:token-verbatim:write', 'token fields are written exactly as stored in the token',
+                  'token fields are rewritten on output: %s -- the file no longer holds the words that were parsed' % sorted(set(rewritten))[:2])
     return span_attrs
 
 
